@@ -149,10 +149,15 @@ func H_C09_roundtrip() {
 	m.QDCount, m.ANCount, m.NSCount, m.ARCount = vU16("prev.qd"), vU16("prev.an"), vU16("prev.ns"), vU16("prev.ar")
 	raw, err := m.Encode()
 	vCheck(err == nil, "roundtrip/encode-ok")
-	d, err := DecodeMessage(raw)
+	rx := append([]byte{}, raw...)
+	d, err := DecodeMessage(rx)
 	vCheck(err == nil, "roundtrip/decode-ok")
 	if err != nil {
 		return
+	}
+	// the receive buffer is reused for the next datagram: the decoded message keeps what was on the wire
+	for i := range rx {
+		rx[i] ^= 0xFF
 	}
 	vCheck(d.ID == m.ID && d.Flags == m.Flags, "roundtrip/header-id-flags")
 	vCheck(int(d.QDCount) == nq && int(d.ANCount) == na && int(d.NSCount) == ns && int(d.ARCount) == nr, "roundtrip/header-counts")
